@@ -768,8 +768,7 @@ var errObjs = []string{`n | divided_by: 0`, `s | modulo: "x"`, `arr | concat: 5`
 	// misspelt filter names (undefined filters are reported at render time)
 	`s | upcase: 1, 2`, `x | plus: 1`, `s | `, `s | join | | size`, `(1..`, `n.`, `arr[`,
 	`s | upcas`, `s | lcase`, `arr | jon`, `arr | sise`, `s | xstrip`, `s | url_code`, `n | min`, `s | nosuchfilter`, `arr | frist`, `s | appnd: "x"`, `n | tims: 2`}
-var errTags = []string{`include 5`, `include nil`, `cycle "a"`, `assign q = n | divided_by: 0`, `echo s | divided_by: 0`,
-}
+var errTags = []string{`include 5`, `include nil`, `cycle "a"`, `assign q = n | divided_by: 0`, `echo s | divided_by: 0`}
 
 // constructs that make the whole template fail to parse (drawn rarely: a template that
 // does not parse exercises nothing else)
